@@ -209,6 +209,17 @@ def main():
         chk.case(json.dumps(big, sort_keys=True))
         check_shape(chk, big, rng, work)
         chk.traces += 1
+    # the two fields are independent: a footprint of small integers / zeros next to a full-precision concentration and
+    # the other way round (a storage decision taken on one field must not reach the other)
+    for which in ("flx", "conc"):
+        shp = {"nt": 2, "ns": 2, "nl": 2, "ts": "label", "forcing": "ustar"}
+        cfgm, resm, coords = build(shp, rng)
+        for lst in resm.values():
+            for r_ in lst:
+                r_[which] = np.round(np.asarray(r_[which]) * 0 + rng.integers(0, 7, size=np.shape(r_[which]))).astype(float)
+        chk.case(json.dumps(["integer_" + which, shp], sort_keys=True))
+        check_shape(chk, dict(shp, integer_field=which), rng, work, results_override=(cfgm, resm, coords))
+        chk.traces += 1
     # histories of saves and loads over paths in one process (spec/NetcdfFiles.tla)
     rf = run_tlc("NetcdfFiles", "MC_NetcdfFiles", workers=4)
     chk.add_tlc("MC_NetcdfFiles", rf)
